@@ -9,6 +9,10 @@ SomeConfigs == {[consts |-> cs, params |-> ps] :
                   cs \in {<<>>, <<"a">>, <<"a", "a">>},
                   ps \in {<<>>, <<"a">>, <<"b">>, <<"b", "b">>}}
 
+\* Dead code (seventh round of seeded changes, C02g): bodies that open with a block -- `{ goto y; var a; z: x = a; y: }` has
+\* 7 items and two label names: statements after an unconditional goto, declarations among them, used after a later label
+DeadShape == Len(body) = 0 \/ body[1].k = "O"
+
 EmitCase == phase = "end" =>
     PrintT(<<"CASE", ToJson([b |-> Str(body), consts |-> cfg.consts, params |-> cfg.params,
                              labelok |-> MLabelOK(body), nodup |-> MNoDup(body, cfg),
